@@ -125,6 +125,11 @@ def setup_worker(rec, ctx) -> None:
     lam("BoostMatrix|negsum", [p1, p2], L.BoostMatrix(L.NegativeMomentum(ps)))
     lam("ArrayMultiplication|sum", [p1, p2], ArrayMultiplication(L.BoostMatrix(ps), p1))
     lam("ArrayMultiplication|negsum", [p1, p2], ArrayMultiplication(L.BoostMatrix(L.NegativeMomentum(ps)), L.NegativeMomentum(ps)))
+    # the space-inverted momentum of an already *boosted* momentum q = B(p1+p2) p1
+    qb = ArrayMultiplication(L.BoostMatrix(ps), p1)
+    lam("ArrayMultiplication|q", [p1, p2], qb)
+    lam("NegativeMomentum|boosted", [p1, p2], L.NegativeMomentum(qb))
+    lam("MatrixMultiplication|inv_boosted", [p1, p2], MatrixMultiplication(L.BoostMatrix(L.NegativeMomentum(qb)), L.BoostMatrix(qb)))
     # explicit symbolic matrices (the library's own as_explicit)
     def lam_explicit(name, args, mat):
         mat = mat.doit()
@@ -296,6 +301,24 @@ def _run_case(case, rec, ctx) -> None:
             ms = np.sqrt(np.abs(psum[:, 0] ** 2 - (psum[:, 1:] ** 2).sum(1)))
             ok = (np.abs(r2[:, 0] - ms) <= 256 * EPS * g2 ** 2 * ms) & (np.abs(r2[:, 1:]).max(axis=1) <= 256 * EPS * g2 ** 2 * ms)
             rec.check(bool(ok.all()), "rest_frame", "BoostMatrix(-P) applied to -P (P = p1+p2) is not (m,0,0,0)", w, feats)
+            # q = B(p1+p2) p1 (a momentum expressed in the rest frame of the pair): NegativeMomentum(q) and its boost
+            q1t = q1.copy()
+            q1t[:, 0] = np.sqrt(np.maximum((0.5 * m) ** 2 + (q1[:, 1:] ** 2).sum(1), 0))   # time-like p1
+            q2t = psum - q1t
+            good = (q2t[:, 0] ** 2 - (q2t[:, 1:] ** 2).sum(1) > 0) & (q2t[:, 0] > 0)
+            if good.any():
+                q1t, q2t, g2 = q1t[good], q2t[good], g2[good]
+                n = int(good.sum())
+                qn = np.asarray(F["ArrayMultiplication|q", cse](q1t, q2t), dtype=float).reshape(n, 4)
+                nq = np.asarray(F["NegativeMomentum|boosted", cse](q1t, q2t), dtype=float).reshape(n, 4)
+                tq = 64 * EPS * np.abs(qn).max(axis=1)[:, None] + 1e-300
+                rec.check(bool((np.abs(nq - qn * np.array([1, -1, -1, -1.0])) <= tq).all()), "negative_momentum",
+                          "NegativeMomentum of a boosted momentum B(p1+p2) p1 is not (E,-px,-py,-pz) of that momentum", w, feats)
+                invb = _mat(F["MatrixMultiplication|inv_boosted", cse](q1t, q2t), n)
+                gq = qn[:, 0] / np.sqrt(np.maximum(qn[:, 0] ** 2 - (qn[:, 1:] ** 2).sum(1), 1e-300))
+                devq = np.abs(invb - np.eye(4)).max(axis=(1, 2))
+                rec.check(bool((devq <= 1024 * EPS * gq ** 2 * g2 ** 2).all()), "inverse",
+                          f"BoostMatrix(NegativeMomentum(q)) BoostMatrix(q) != 1 for a boosted momentum q = B(p1+p2) p1 (dev {devq.max():.3g})", w, feats)
         elif fam == "boostz":
             beta = p[:, 3] / p[:, 0]
             Bz = _mat(F["BoostZMatrix", cse](beta, p), n)
